@@ -13,7 +13,7 @@ BOX_IDX gather-scatter style of `utils.get_action_mask` and of the sort-based `u
 Modular step (engine limitation: 27 rank-encoded sorts in one scalar are out of reach of z3, a single row takes 20 s):
 `utils.is_puzzle_solved` is verified at function level against the rule `solved` in two lemmas on the REAL code
   (i)  is_puzzle_solved(board) == AND over the 27 units of _validate_row(unit)       (all int32 boards)
-  (ii) _validate_row(v) <=> "v holds every digit exactly once and nothing else"       (all int32 rows; `_validate_row`
+  (ii) _validate_row(v) <=> "v holds digits only and no digit twice"                  (all int32 rows; `_validate_row`
        is the real nested function, re-materialised from the code object of `is_puzzle_solved`)
 and inside the `step` problem the callee `is_puzzle_solved` (as imported by reward.py) is replaced by its proven
 contract `solved` (contract boundary on a callee, GUIDE "Engine limits").  The lemmas are emitted under every property
@@ -64,12 +64,13 @@ def full(board):
 
 
 def unit_complete(v):
-    """the 9 cells hold digits only and every digit exactly once"""
-    return jnp.all((v >= 0) & (v < N)) & jnp.all(count(v) == 1)
+    """the 9 cells hold digits only and no digit twice (hence, 9 cells / 9 digits, every digit exactly once: lemma
+    `C06.full_valid_row_holds_every_digit_exactly_once`)"""
+    return jnp.all((v >= 0) & (v < N)) & jnp.all(count(v) <= 1)
 
 
 def solved(board):
-    """the board is full and every row, column and box holds every digit exactly once"""
+    """the board is full and valid: every row, column and box holds digits only and no digit twice"""
     return jnp.all(jnp.stack([unit_complete(u) for u in units(board)]))
 
 
@@ -155,9 +156,10 @@ def problems(env, cfg, tier):
             "C05.illegal_reward_is_documented": ok | (ts.reward == INVALID_REWARD),
             "C06.legal_play_keeps_units_duplicate_free": ~ok | feasible(s2.board),
             "C06.legal_play_keeps_alphabet": ~ok | alphabet(s2.board),
-            # completion: a full board reached by a legal move is a solution (per unit: pigeonhole), is LAST and rewarded
+            # completion: a full board reached by a legal move is full and valid (per unit), is LAST and rewarded
             "C06.full_board_after_legal_play_is_a_solution": jnp.stack([~(ok & full2) | unit_complete(u) for u in units(s2.board)]),
-            "C06.full_valid_board_is_last_and_rewarded": ~(full2 & solved2) | (last & (ts.reward == 1.0)),
+            "C06.full_board_after_legal_play_ends_the_episode": ~(ok & full2) | last,
+            "C09.full_valid_board_is_last_and_rewarded": ~(full2 & solved2) | (last & (ts.reward == 1.0)),
             "C06.rewarded_end_is_a_full_valid_board": (ts.reward != 1.0) | (last & full2 & solved2 & feasible(s2.board).all()),
             # Inv' on MID steps = (MID => the action was legal) + the two legal_play clauses + the C04 mask clauses
             "C06.inv_mid_step_was_legal": last | ok,
@@ -167,8 +169,9 @@ def problems(env, cfg, tier):
             "C09.reward": ts.reward == jnp.where(full2 & solved2, 1.0, 0.0),
             "C09.last": last == (~ok | stuck2),
             "C09.key_unchanged": (s2.key == s.key).all(),
-            "C11.variant_decreases": last | (empties(s2.board) < empties(s.board)),
-            "C11.variant_decreases_by_one_on_legal": ~ok | (empties(s2.board) == empties(s.board) - 1),
+            # (9, 9) case split on the targeted cell (exhaustive by in_spec): one big sum comparison times out
+            "C11.variant_decreases": ~target | last | (empties(s2.board) < empties(s.board)),
+            "C11.variant_decreases_by_one_on_legal": ~target | ~ok | (empties(s2.board) == empties(s.board) - 1),
             "C11.variant_bounded": (empties(s.board) >= 1) & (empties(s.board) <= N * N),
             "C12.obs.board": o.board == s2.board,
             "C12.obs.action_mask": o.action_mask == s2.action_mask,
@@ -197,18 +200,22 @@ def problems(env, cfg, tier):
         out = {"canary.no_row_is_valid": ~VR(v)}
         for p in REWARD_DEPENDENT:
             out[f"{p}.validate_row_implies_digits_only"] = ~VR(v) | ((v >= 0) & (v < N))
-            out[f"{p}.validate_row_implies_every_digit_once"] = ~VR(v) | (count(v) == 1)
-            # (case split on the position of digit 0: one obligation takes 20-70 s, the nine cases 2-5 s each)
-            out[f"{p}.every_digit_once_implies_validate_row.case_digit0_at"] = jnp.stack([~(unit_complete(v) & (v[i] == 0)) | VR(v) for i in range(N)])
-            out[f"{p}.every_digit_once_implies_validate_row.cases_are_exhaustive"] = ~unit_complete(v) | jnp.any(v == 0)
+            out[f"{p}.validate_row_implies_no_digit_twice"] = ~VR(v) | (count(v) <= 1)
+            if p != "C09":
+                continue  # C05 "an illegal move is never rewarded" / C06 "a rewarded end is a full valid board" only need real => rule
+            # (case split on the value of the first cell: one obligation takes 20-70 s, the nine cases ~3 s each)
+            out[f"{p}.full_valid_row_implies_validate_row.case_first_cell_is"] = jnp.stack(
+                [~(unit_complete(v) & (v[0] == k)) | VR(v) for k in DIGITS])
+            out[f"{p}.full_valid_row_implies_validate_row.cases_are_exhaustive"] = ~unit_complete(v) | ((v[0] >= 0) & (v[0] < N))
+        out["C06.full_valid_row_holds_every_digit_exactly_once"] = ~unit_complete(v) | (count(v) == 1)
         return out
 
     row = dict(title=f"Sudoku.is_puzzle_solved._validate_row@{cfg}", args=(state.board[0],), requires=lambda v: {}, ensures=row_ens,
-               workers=3, targets=[U.is_puzzle_solved])
+               workers=1, targets=[U.is_puzzle_solved])
 
     def comp_ens(board):
         conj = jnp.all(jnp.stack([VR(u) for u in units(board)]))
-        out = {"canary.every_full_board_is_solved": ~full(board) | U.is_puzzle_solved(board)}
+        out = {"canary.no_board_is_full": ~full(board)}
         for p in REWARD_DEPENDENT:
             out[f"{p}.is_puzzle_solved_is_validate_row_on_the_27_units"] = U.is_puzzle_solved(board) == conj
         return out
